@@ -547,8 +547,8 @@ func TestC07(t *testing.T) {
 		st.CaseJSON(*c, nt, cls...)
 		st.Class("streams", int64(len(c.Streams)))
 	}
-	stat.Check(t, st, "client", stat.N(4000, 200000), drawCase("client"), func(c Case) *stat.Failure { record(&c); return runCase(c) })
-	stat.Check(t, st, "server", stat.N(24, 1500), drawCase("server"), func(c Case) *stat.Failure { record(&c); return runCase(c) })
+	stat.Check(t, st, "client", stat.N(4000, 60000), drawCase("client"), func(c Case) *stat.Failure { record(&c); return runCase(c) })
+	stat.Check(t, st, "server", stat.N(24, 500), drawCase("server"), func(c Case) *stat.Failure { record(&c); return runCase(c) })
 	stat.Check(t, st, "tarsrequest", stat.N(20000, 400000), func(rt *rapid.T) TRCase {
 		M := rapid.SampledFrom([]int{4, 5, 16, 64, 1024, 65536, 10485760}).Draw(rt, "M")
 		l := rapid.OneOf(rapid.Uint32Range(0, 8), rapid.SampledFrom([]uint32{uint32(M - 1), uint32(M), uint32(M + 1), 1<<32 - 1, 1 << 31}), rapid.Uint32()).Draw(rt, "prefix")
